@@ -46,14 +46,19 @@ GENERAL = dict(L=[1, 2, 3, 4, 5, 6], M=[3, 1, 2, -1, 2, 7], x=[1, -2, 3], k=0.5,
                P=[1, 2, 3], Q=[4, -1, 2], p=[1, 2, 3], d=[2, 1, -1], n=[1, 1, 2])
 
 
+# two parallel lines (directions (1,2,2) and (2,4,4)); two lines meeting at (0,0,1) along x and y (every operation exact)
+PARALLEL = dict(L=[-2, -2, 3, 1, 2, 2], M=[0, -4, 4, 2, 4, 4])
+MEETING = dict(L=[0, -1, 0, 1, 0, 0], M=[1, 0, 0, 0, 1, 0])
+
+
 class PathMismatch(Exception):
     pass
 
 
-def ctrace(ctx, g, name, inputs, fn, expect, pcname=None, sampler=None, tol=1e-11, out=None, num_fn=None):
+def ctrace(ctx, g, name, inputs, fn, expect, pcname=None, sampler=None, tol=1e-11, out=None, num_fn=None, val=None):
     """trace fn concolically under GENERAL; `expect` is the truth pattern ('T'/'F' per DISTINCT comparison, in
     order of first occurrence) the fixed theorems were written for.  Emits pc_<pcname>_<k> = gts - lts."""
-    _setval(**GENERAL)
+    _setval(**dict(GENERAL, **(val or {})))
     holder = {}
 
     def wrapped(*a):
@@ -116,6 +121,23 @@ def s_line(rng):
     return np.r_[np.cross(w, p), w]
 
 
+def s_parallel(rng):
+    p, q = rng.integers(-5, 6, size=3).astype(float), rng.integers(-5, 6, size=3).astype(float)
+    w = rng.integers(-4, 5, size=3).astype(float)
+    if not np.any(w):
+        w = np.array([1.0, 2.0, 2.0])
+    k = float(2.0 ** rng.integers(-2, 3)) * rng.choice([-1.0, 1.0])
+    return [np.r_[np.cross(w, p), w], np.r_[np.cross(k * w, q), k * w]]
+
+
+def s_meeting(rng):
+    c = rng.integers(-5, 6, size=3).astype(float)
+    ax = rng.permutation(3)
+    k = float(2.0 ** rng.integers(-2, 3))
+    wa, wb = np.eye(3)[ax[0]] * k * rng.choice([-1.0, 1.0]), np.eye(3)[ax[1]] * 2 * k * rng.choice([-1.0, 1.0])
+    return [np.r_[np.cross(wa, c), wa], np.r_[np.cross(wb, c), wb]]
+
+
 def build(ctx):
     g = Gen('C19')
     V3, V4, V6, S = 'V3', 'V4', 'V6', 'S'
@@ -144,13 +166,29 @@ def build(ctx):
     g.trace('tr_isparallel_res', [('L', V6), ('M', V6)],
             lambda L, M: _rel_sides(PL(L).isparallel(PL(M)), 'Plucker.isparallel', ctx),
             num_fn=lambda L, M: np.linalg.norm(np.cross(L[3:], M[3:])))
-    ctrace(ctx, g, 'tr_recip', [('L', V6), ('M', V6)], lambda L, M: PL(L) * PL(M), 'TT', 'recip')
-    ctrace(ctx, g, 'tr_commonperp', [('L', V6), ('M', V6)], lambda L, M: PL(L).commonperp(PL(M)).vec, 'FTTT', 'commonperp',
+    g.trace('tr_recip', [('L', V6), ('M', V6)], lambda L, M: PL(L) * PL(M), sampler=lambda rng: [s_line(rng), s_line(rng)])
+    ctrace(ctx, g, 'tr_commonperp', [('L', V6), ('M', V6)], lambda L, M: PL(L).commonperp(PL(M)).vec, 'F', 'commonperp',
            tol=1e-10)
-    ctrace(ctx, g, 'tr_distance', [('L', V6), ('M', V6)], lambda L, M: PL(L).distance(PL(M)), 'FTTF', 'distance', tol=1e-9)
+    ctrace(ctx, g, 'tr_distance', [('L', V6), ('M', V6)], lambda L, M: PL(L).distance(PL(M)), 'FF', 'distance', tol=1e-9)
+    # the other two branches of distance(): parallel lines, meeting lines (valuations / samplers with exact data on that path)
+    ctrace(ctx, g, 'tr_distance_par', [('L', V6), ('M', V6)], lambda L, M: PL(L).distance(PL(M)), 'T', 'distance_par', tol=1e-9,
+           val=PARALLEL, sampler=s_parallel)
+    ctrace(ctx, g, 'tr_distance_meet', [('L', V6), ('M', V6)], lambda L, M: PL(L).distance(PL(M)), 'FT', 'distance_meet', tol=1e-9,
+           val=MEETING, sampler=s_meeting, out='S')
+    ctrace(ctx, g, 'tr_intersects', [('L', V6), ('M', V6)], lambda L, M: PL(L).intersects(PL(M)), 'FT', 'intersects', tol=1e-9,
+           val=MEETING, sampler=s_meeting, out='V3')
     # ---- line and plane
-    ctrace(ctx, g, 'tr_ip_p', [('L', V6), ('a', V4)], lambda L, a: PL(L).intersect_plane(Plane(a)).p, 'T', 'ip', tol=1e-9)
-    ctrace(ctx, g, 'tr_ip_lam', [('L', V6), ('a', V4)], lambda L, a: PL(L).intersect_plane(Plane(a)).lam, 'T', tol=1e-9)
+    ctrace(ctx, g, 'tr_ip_p', [('L', V6), ('a', V4)], lambda L, a: PL(L).intersect_plane(Plane(a)).p, 'TT', 'ip', tol=1e-9)
+    ctrace(ctx, g, 'tr_ip_lam', [('L', V6), ('a', V4)], lambda L, a: PL(L).intersect_plane(Plane(a)).lam, 'TT', tol=1e-9)
+    def p3(p):
+        # base.getmatrix forces float64; while tracing it is the identity on a 3x3 object array (the numeric run uses the real one)
+        real = base.getmatrix
+        base.getmatrix = lambda m, shape, dtype=None: np.asarray(m) if np.asarray(m).dtype == object and np.asarray(m).shape == tuple(shape) else real(m, shape)
+        try:
+            return Plane.P3(p).plane
+        finally:
+            base.getmatrix = real
+    g.trace('tr_PlaneP3', [('p', 'M33')], p3, num_fn=lambda p: Plane.P3(p).plane, out='V4')
     # ---- rigid motion
     def se3mul(X, L):
         with concolic.object_alloc():
